@@ -187,6 +187,12 @@ func explore(t *testing.T, l core.Lens, job *Job, emit func(rec)) {
 		}
 	}
 	handle := func(plan *core.Plan, res *core.Result, idx int) {
+		if res.StepCapped && len(res.Violations) > 0 {
+			// the run was cut short by the harness's own step budget (tasks aborted mid-flight): what its oracles saw
+			// is not a verdict on the code under test - counted as inconclusive, never reported
+			st.Extra["violations_dropped_run_hit_the_step_budget"] += len(res.Violations)
+			return
+		}
 		for _, v := range res.Violations {
 			if len(v.Class) > 8 && v.Class[:8] == "HARNESS/" {
 				emit(rec{"type": "harness", "class": v.Class, "detail": v.Detail, "seed": plan.Seed, "index": idx})
@@ -281,12 +287,16 @@ func explore(t *testing.T, l core.Lens, job *Job, emit func(rec)) {
 			st.DetCompared++
 			if res2.Hash == res.Hash && res2.Abstract == res.Abstract && len(res2.Violations) == len(res.Violations) {
 				st.DetMatched++
-			} else if res2.Abstract == res.Abstract && len(res2.Violations) == len(res.Violations) {
-				// Same operations, same faults, same verdicts; only the event log differs - names the code under test
-				// makes up from a counter, its process id or the global math/rand source (temporary files, say). A
-				// changed tree may do that; the tree as it is does not (the cross-process determinism self-test
-				// compares full event logs). Counted, shown in the evidence, not an error.
-				st.Extra["reexecution_same_verdict_other_event_log"]++
+			} else if len(res2.Violations) == len(res.Violations) {
+				// Same verdict; the event log or the sequence of operations differs. On a changed tree that is what
+				// package-level state does (a memo that is cold the first time and warm the second, a counter or the
+				// global math/rand source in the names of temporary files); the tree as it is has none, and there the
+				// cross-process determinism self-test compares full event logs. Counted, shown in the evidence.
+				if res2.Abstract == res.Abstract {
+					st.Extra["reexecution_same_verdict_other_event_log"]++
+				} else {
+					st.Extra["reexecution_same_verdict_other_operations"]++
+				}
 			} else {
 				emit(rec{"type": "harness", "class": "HARNESS/nondeterminism", "detail": fmt.Sprintf("seed %d index %d: hash %x vs %x, violations %d vs %d", plan.Seed, idx, res.Hash, res2.Hash, len(res.Violations), len(res2.Violations))})
 			}
